@@ -125,6 +125,14 @@ class Phi(V):
         return f"({show(self.a)} if {show(self.cond)} else {show(self.b)})"
 
 
+@dataclass(frozen=True)
+class PartialV(V):
+    """functools.partial(callee, *args, **kwargs)"""
+    callee: object
+    args: tuple = ()
+    kwargs: tuple = ()      # ((name, value), ...)
+
+
 class LambdaV(V):
     def __init__(self, node, env, fr):
         self.node, self.env, self.fr = node, env, fr
@@ -466,6 +474,16 @@ class _Return(Exception):
     pass
 
 
+def _own_nodes(fn: ast.AST):
+    """nodes of a function body without descending into nested function definitions"""
+    stack = list(ast.iter_child_nodes(fn))
+    while stack:
+        n = stack.pop()
+        yield n
+        if not isinstance(n, (ast.FunctionDef, ast.AsyncFunctionDef, ast.Lambda, ast.ClassDef)):
+            stack.extend(ast.iter_child_nodes(n))
+
+
 class Frame:
     def __init__(self, func: FuncInfo, recv_cls: ClassInfo | None, self_v, module: Module):
         self.func = func
@@ -578,14 +596,38 @@ class Evaluator:
                     fr.env[prm] = self.eval_in_module(dmap[prm], f.module)
                 else:
                     fr.env[prm] = Sym("param", (prm,))
+        is_gen = any(isinstance(n, (ast.Yield, ast.YieldFrom)) for n in _own_nodes(node))
+        if is_gen:
+            fr.yields = []
         self.stack.append(f)
         try:
             self.exec_block(node.body, fr)
         finally:
             self.stack.pop()
+        if is_gen:
+            # a generator function: what it yields, in order, consumed lazily by the caller (join / list / for)
+            return ListV(tuple(fr.yields), "gen")
         if fr.live:
             fr.done.append((conj(fr.live_cond), Const(None)))
         return self.combine(fr.done)
+
+    def e_Yield(self, e, fr):
+        if not hasattr(fr, "yields"):
+            self.unsupported(e, fr, "yield outside an inlined generator function")
+        v = self.eval(e.value, fr) if e.value is not None else Const(None)
+        extra = [c for c in fr.live_cond if not (isinstance(c, Const) and c.value is True)]
+        fr.yields.append(One(v, conj(extra)) if extra else One(v))
+        return Const(None)
+
+    def e_YieldFrom(self, e, fr):
+        if not hasattr(fr, "yields"):
+            self.unsupported(e, fr, "yield from outside an inlined generator function")
+        v = self.consume_lazy(self.eval(e.value, fr))
+        if isinstance(v, ListV):
+            fr.yields.extend(v.items)
+        else:
+            fr.yields.append(RepI((One(Sym("elem", (v,))),), v))
+        return Const(None)
 
     def combine(self, done: list):
         """fold terminated paths (in order) into one value"""
@@ -952,6 +994,15 @@ class Evaluator:
         if r is None:
             if fr is not None and fr.recv_cls is not None and name in getattr(fr.recv_cls, "nested", {}):
                 return ClassRef(fr.recv_cls.nested[name])
+            # a class attribute expression naming an earlier attribute of the same class body (class scope)
+            if fr is not None and isinstance(getattr(fr, "func", None), _ModuleFunc) and fr.recv_cls is not None and name in fr.recv_cls.class_attrs \
+                    and name not in getattr(self, "_class_scope_busy", set()):
+                busy = self.__dict__.setdefault("_class_scope_busy", set())
+                busy.add(name)
+                try:
+                    return self.eval_in_module(fr.recv_cls.class_attrs[name], fr.recv_cls.module, fr.recv_cls)
+                finally:
+                    busy.discard(name)
             return Builtin(name)
         if r[0] == "class":
             return ClassRef(r[1])
@@ -1065,7 +1116,17 @@ class Evaluator:
         return Sym("item", (base, key))
 
     def e_Tuple(self, e, fr):
-        return ListV(tuple(One(self.eval(x, fr)) for x in e.elts), "tuple")
+        items = []
+        for x in e.elts:
+            if isinstance(x, ast.Starred):
+                v = self.consume_lazy(self.eval(x.value, fr))
+                if isinstance(v, ListV):
+                    items.extend(v.items)
+                else:
+                    items.append(RepI((One(Sym("elem", (v,))),), v))
+            else:
+                items.append(One(self.eval(x, fr)))
+        return ListV(tuple(items), "tuple")
 
     def e_List(self, e, fr):
         items = []
@@ -1084,7 +1145,17 @@ class Evaluator:
         return ListV(tuple(One(self.eval(x, fr)) for x in e.elts), "set")
 
     def e_Dict(self, e, fr):
-        return DictV(tuple((self.eval(k, fr), self.eval(v, fr)) for k, v in zip(e.keys, e.values) if k is not None))
+        items = []
+        for k, v in zip(e.keys, e.values):
+            if k is None:                       # {**other}
+                o = self.eval(v, fr)
+                if not isinstance(o, DictV):
+                    self.unsupported(e, fr, "dict display spreading a non-constant mapping")
+                for kk, vv in o.items:
+                    items = [(a, b) for a, b in items if self.concrete(a) is _NO or self.concrete(a) != self.concrete(kk)] + [(kk, vv)]
+            else:
+                items.append((self.eval(k, fr), self.eval(v, fr)))
+        return DictV(tuple(items))
 
     def e_Lambda(self, e, fr):
         return LambdaV(e, dict(fr.env), fr)
@@ -1337,8 +1408,15 @@ class Evaluator:
         if len(e.generators) != 1:
             self.unsupported(e, fr, "multi-generator comprehension")
         g = e.generators[0]
-        it = self.eval(g.iter, fr)
+        it = self.consume_lazy(self.eval(g.iter, fr))
         saved = dict(fr.env)
+        if isinstance(it, ListV) and all(isinstance(i, One) and i.cond is None for i in it.items) and len(it.items) <= 16 and not g.ifs:
+            pairs = []
+            for i in it.items:
+                self.assign(g.target, i.value, fr, e)
+                pairs.append((self.eval(e.key, fr), self.eval(e.value, fr)))
+            fr.env = saved
+            return DictV(tuple(pairs))
         self.assign(g.target, Sym("elem", (it,)), fr, e)
         filt = conj([self.eval(c, fr) for c in g.ifs]) if g.ifs else None
         k = self.eval(e.key, fr)
@@ -1413,6 +1491,12 @@ class Evaluator:
         return args, kwargs
 
     def call_value(self, callee, args, kwargs, e, fr):
+        if isinstance(callee, Sym) and callee.kind == "extern" and str(callee.args[0]).rsplit(".", 1)[-1] == "partial" and args:
+            return PartialV(args[0], tuple(args[1:]), tuple(kwargs.items()))
+        if isinstance(callee, PartialV):
+            kw = dict(callee.kwargs)
+            kw.update(kwargs)
+            return self.call_value(callee.callee, list(callee.args) + list(args), kw, e, fr)
         if isinstance(callee, FuncRef):
             return self.call_function(callee.func, callee.recv_cls, callee.bound, args, kwargs, self.src(fr, e))
         if isinstance(callee, Builtin):
@@ -1529,6 +1613,8 @@ class Evaluator:
             return ListV((RepI((One(Sym("elem", (a0,))),), a0),), "list")
         if name == "type" and len(args) == 1 and isinstance(a0, Obj):
             return ClassRef(a0.cls)
+        if name == "zip" and any(isinstance(a, DictV) for a in args):
+            args = [ListV(tuple(One(k) for k, _ in a.items), "list") if isinstance(a, DictV) else a for a in args]   # iterating a dict yields its keys
         if name == "zip" and args and all(isinstance(a, ListV) and all(isinstance(i, One) and i.cond is None for i in a.items) for a in args):
             n_ = min(len(a.items) for a in args)
             return ListV(tuple(One(ListV(tuple(One(a.items[k].value) for a in args), "tuple")) for k in range(n_)), "list")
@@ -1720,6 +1806,18 @@ class Evaluator:
             r = self.dict_get(base, args[0], args[1] if len(args) > 1 else Const(None), fr, e)
             if r is not None:
                 return r
+        # ---- dict.fromkeys(keys, value)
+        if isinstance(base, Builtin) and base.name == "dict" and m == "fromkeys" and e.args:
+            args, _ = self.eval_args(e, fr)
+            ks = self.consume_lazy(args[0])
+            if isinstance(ks, ListV) and all(isinstance(i, One) and i.cond is None for i in ks.items):
+                val = args[1] if len(args) > 1 else Const(None)
+                return DictV(tuple((i.value, val) for i in ks.items))
+        # ---- views of a constant table
+        if isinstance(base, DictV) and m in ("items", "keys", "values") and not e.args:
+            if m == "items":
+                return ListV(tuple(One(ListV((One(k), One(v)), "tuple")) for k, v in base.items), "list")
+            return ListV(tuple(One(k if m == "keys" else v) for k, v in base.items), "list")
         # ---- local list methods used as expressions
         if isinstance(base, ListV) and m in ("copy",):
             return base
